@@ -32,3 +32,28 @@ def side(species, stoich):
 def equation(rxn):
     """reactants <=> products, integer coefficients separated from the names by a blank, no transition state"""
     return side(rxn.reactants, rxn.reactants_stoich) + ' <=> ' + side(rxn.products, rxn.products_stoich)
+
+
+RULE = '#' + '-' * 79
+
+
+def cti_section(text, title):
+    """the text of one titled section of a CTI file (between its header and the next header)"""
+    marker = RULE + '\n# ' + title + '\n' + RULE + '\n'
+    rest = text.split(marker)[1]
+    return rest.split('\n\n' + RULE)[0]
+
+
+def cti_titles(text):
+    """section titles in file order"""
+    ls = text.split('\n')
+    return [ls[i][2:] for i in range(1, len(ls) - 1) if ls[i - 1] == RULE and ls[i + 1] == RULE]
+
+
+def distinct(xs):
+    return all(not (xs[i] == xs[j]) for i in range(len(xs)) for j in range(i + 1, len(xs)))
+
+
+def balanced(text):
+    """as many opening as closing parentheses and brackets"""
+    return len(text.split('(')) == len(text.split(')')) and len(text.split('[')) == len(text.split(']'))
